@@ -4,7 +4,7 @@ import json, os
 os.chdir("/verif")
 rows = sorted(l.split() for l in open("run/matrix.final") if l.strip())
 out = ["# Seeded changes: which check reports them (quick tier, VERIF_SEED=%s)" % os.environ.get("VERIF_SEED", "1"), "",
-       "Variants A-D: rounds 1 and 2; E, F: round 3; G, H: round 4; I, J: round 5 (connection-level properties only); K, L: round 6 (eight properties). Every change was",
+       "Variants A-D: rounds 1 and 2; E, F: round 3; G, H: round 4; I, J: round 5 (connection-level properties only); K, L: round 6 (eight properties); M: round 7 (ten properties). Every change was",
        "confirmed in a scratch worktree (suite passes with it, its demonstration fails with it and passes without it) and the owning",
        "check was run against it with `tools/trymutant.sh` (scratch worktree, `VERIF_REPO`); /repo itself is never touched.", "",
        "| change | property | check run | result |", "|---|---|---|---|"]
